@@ -313,3 +313,19 @@ Lemma listener_safe_lemma : forall nthr maxn levs ls,
 Proof.
   intros nthr maxn levs ls H. destruct (listener_guarded_lemma levs _ _ (linv_init nthr maxn) H) as [G _]. exact G.
 Qed.
+
+Lemma listener_no_dead_pipeline_lemma : forall (nthr maxn : nat) (levs : list levent) (ls : lstate),
+  lrun true true (linit nthr maxn) levs = Some ls -> log_ok (st_log (l_st ls)).
+Proof.
+  intros nthr maxn levs ls H.
+  exact (no_dead_pipeline_lemma nthr maxn (api_events levs) (l_st ls) (listener_safe_lemma nthr maxn levs ls H)).
+Qed.
+
+Lemma listener_no_loss_lemma : forall (nthr maxn : nat) (levs : list levent) (ls : lstate) (r : rec),
+  lrun true true (linit nthr maxn) levs = Some ls ->
+  cnt r (delivered_recs (st_log (l_st ls))) + cnt r (buffered (l_st ls)) + cnt r (inflight (l_st ls)) =
+  cnt r (acc_of_events (api_events levs)).
+Proof.
+  intros nthr maxn levs ls r H.
+  exact (no_loss_count_lemma nthr maxn (api_events levs) (l_st ls) r (listener_safe_lemma nthr maxn levs ls H)).
+Qed.
